@@ -184,6 +184,16 @@ static void gen(long seed, int nexec, int nops, int n, uint32_t b, uint32_t s, l
 		long t = 0;
 		int ops = nops / 2 + drv_below(nops);
 		for (int k = 0; k < ops; k++) {
+			if (drv_below(25) == 0) {       /* a burst that fills (or overfills) the 8-deep atomic run queue, then one draining call */
+				int burst = 7 + drv_below(3);
+				for (int i = 0; i < burst; i++) outside(B_RUNATOMIC, 1 + drv_below(nf));
+				switch (drv_below(3)) {
+				case 0: outside(B_RUN, 1 + drv_below(nf)); break;
+				case 1: outside(B_KILL, 1 + drv_below(nf)); break;
+				default: do_pass(t, "none"); break;
+				}
+				continue;
+			}
 			switch (drv_below(8)) {
 			case 0: outside(B_RUN, 1 + drv_below(nf)); break;
 			case 1: outside(B_RUNATOMIC, 1 + drv_below(nf)); break;
